@@ -358,11 +358,13 @@ class BQLShell(DispatchingShell):
     """An interactive shell interpreter for the Beancount query language."""
     prompt = 'beanquery> '
 
-    def __init__(self, filename, outfile, interactive=False, runinit=False, format='text', numberify=False):
+    def __init__(self, filename, outfile, interactive=False, runinit=False, format='text', numberify=False,
+                 no_errors=False):
         settings = Settings(format=format, numberify=numberify)
         super().__init__(outfile, interactive, runinit, settings)
         self.context = beanquery.connect(None)
         self.filename = filename
+        self.no_errors = no_errors
         self.queries = {}
         self.do_reload()
 
@@ -383,7 +385,7 @@ class BQLShell(DispatchingShell):
         self.context.attach('beancount:' + self.filename)
         table = self.context.tables['entries']
         self._extract_queries(table.entries)
-        if self.context.errors:
+        if self.context.errors and not self.no_errors:
             printer.print_errors(self.context.errors, file=sys.stderr)
         if self.interactive:
             print_statistics(table.entries, table.options, self.outfile)
@@ -759,7 +761,7 @@ def main(filename, query, numberify, format, output, no_errors):
     """
     # Create the shell.
     interactive = sys.stdin.isatty() and not query
-    shell = BQLShell(filename, output, interactive, True, format, numberify)
+    shell = BQLShell(filename, output, interactive, True, format, numberify, no_errors)
 
     # Run interactively if we're a TTY and no query is supplied.
     if interactive:
